@@ -23,6 +23,9 @@ def main():
                         baseline_off_cmd='cd /repo && /venv/bin/python -m pytest -q -p no:cacheprovider --timeout=900 test/unit', source_commits=[], add_only=True),
              engines=[dict(name='E1 hooks', path='vlib/hooks.py', kind_free_text='monkey-patch event recorder / invariant hooks on Wire and Simulator'),
                       dict(name='E2 catalogue', path='vlib/catalog.py', kind_free_text='block catalogue with independent reference models'),
+                      dict(name='E2 sequential catalogue', path='vlib/seqcat.py', kind_free_text='sequential blocks with reference state machines'),
+                      dict(name='E3 netlist generator', path='vlib/netgen.py', kind_free_text='JSON plans of random netlists, permutable construction order, fault injection (cycles)'),
+                      dict(name='E3b dut generator', path='vlib/dutgen.py', kind_free_text='random compositions of catalogue blocks inside a Dut wrapper with hierarchy and register feedback'),
                       dict(name='E4 verilog', path='vlib/vlog', kind_free_text='Verilog-subset parser, elaborator, well-formedness checker and 2-state cycle interpreter')],
              checks=checks, not_applicable=na,
              notes='All checks: /venv/bin/python, PYTHONHASHSEED=0, VERIF_SEED honoured; exit 0 held / 1 violation / 2 inconclusive. See DESIGN.md.')
